@@ -58,8 +58,10 @@ cfg("t_uni", "thorough: 2 clients x <= 2 messages, pool of 2, echo (unicast) rep
     "CS2", "WS2", 2, 0, "FALSE", "ReplyUni", "ExtNone")
 cfg("t_bc", "thorough: 2 clients x 1 message, pool of 2, broadcast replies + external unicast, repaired pool",
     "CS2", "WS2", 1, 0, "FALSE", "ReplyBc", "ExtUni")
-cfg("t_hb", "thorough: 2 clients x 1 message, pool of 2, heartbeat on (timeouts of live and dead streams, dropped sockets)",
-    "CS2", "WS2", 1, 0, "TRUE", "ReplyNone", "ExtNone")
+cfg("t_hb", "thorough: 2 clients (connect, answer pings or not, close, vanish; no messages), one worker, heartbeat on: ping rounds, pongs (timeouts of live and dead streams, dropped sockets)",
+    "CS2", "WS1", 0, 0, "TRUE", "ReplyNone", "ExtNone")
+cfg("t_hb1", "thorough: heartbeat on, one client x <= 2 messages + ping, pool of 2, echo replies: a client that talks in every ping round and answers its pings is never reaped",
+    "CS1", "WS2", 2, 1, "TRUE", "ReplyUni", "ExtNone")
 cfg("t_aswritten", "thorough: pool as written, 2 clients x 1 message, 2 workers, broadcast replies: dispatch-level and delivery properties",
     "CS2", "WS2", 1, 0, "FALSE", "ReplyBc", "ExtNone", dev=II, inv=HARD)
 cfg("t_aswritten_n1", "thorough: pool as written, ONE worker, 2 clients x <= 2 messages: every property incl. invocation level",
